@@ -47,8 +47,10 @@ def bounded_recheck(unit, units, outdir):
     for drop_ghost in (False, True):
         u = dict(unit)
         u['sections'] = {k: v for k, v in unit['sections'].items() if not k.startswith('loop ') and not (drop_ghost and k.startswith('ghost '))}
+        u['unwind'] = str(BCAP + 2)
+        u.pop('cap', None)
         try:
-            b = driver.build_c(u, units, outdir, defines=['#define CAP %d' % BCAP, '#define BOUNDED 1'])
+            b = driver.build_c(u, units, outdir, defines=['#define CAP %d' % BCAP, '#define BOUNDED 1', '#define SHIM_IMPL 1'])
         except ExtractionBreak as e:
             if not drop_ghost and has_ghost and 'no matching place' in str(e):
                 continue      # loop structure changed: the ghost splices do not attach any more
@@ -58,8 +60,15 @@ def bounded_recheck(unit, units, outdir):
         inst, err = driver.instrument(u, units, b, outdir, tag='.bounded')
         if err:
             return 'undecided', err
-        flags = driver.check_flags(unit) + ['--unwind', str(BCAP + 2), '--unwinding-assertions', '--trace']
+        flags = driver.check_flags(u) + ['--trace']
+        if not any('write_set_check_assigns_clause_inclusion' in f for f in flags):
+            flags += ['--unwindset', '__CPROVER_contracts_write_set_check_assigns_clause_inclusion.0:64']
         r = driver.run_cbmc(inst['gb'], flags, [], timeout=600)
+        if r['verdict'] == 'refuted':
+            real = [k for k, v in r['results'].items() if v[0] == 'FAILURE' and '.unwind.' not in k]
+            if not real:
+                # only unwinding assertions fail: the bound is too small for this body, nothing is known
+                return 'undecided', 'bounded re-check: only unwinding assertions fail (bound %d too small)\n' % (BCAP + 2) + r['out'][-3000:]
         if drop_ghost and r['verdict'] == 'refuted':
             # without the ghost bookkeeping, postconditions over ghost outputs are meaningless: only safety obligations count
             bad = [k for k, v in r['results'].items() if v[0] == 'FAILURE' and 'postcondition' not in k]
@@ -85,12 +94,18 @@ def triage(unit, units, res, prop, tier='quick'):
     shutil.rmtree(outdir, ignore_errors=True)
     os.makedirs(outdir, exist_ok=True)
     has_loops = any(k.startswith('loop ') for k in unit['sections'])
+    verdict = blog = None
     log = ''
     if res.get('cbmc_log') and os.path.exists(res['cbmc_log']):
         log = open(res['cbmc_log']).read()
     if not has_loops and res.get('only_unknown'):
-        path = write_replay(prop, unit, res, 'loop-free unit but the back end gave no verdict\n' + log[-8000:])
-        return {'verdict': 'undecided', 'replay': path, 'reason': 'back end gave no verdict on a loop-free unit'}
+        # the SMT back end answers `unknown` instead of `sat` when quantified assumptions (sortedness, shim contracts) are present;
+        # the bounded re-check (quantifier-free forms, SAT) decides whether there is a concrete counterexample
+        verdict, blog = bounded_recheck(unit, units, outdir)
+        if verdict != 'refuted':
+            path = write_replay(prop, unit, res, 'loop-free unit but the back end gave no verdict; bounded re-check: %s\n' % verdict + log[-8000:])
+            return {'verdict': 'undecided', 'replay': path, 'reason': 'back end gave no verdict on a loop-free unit (bounded re-check: %s)' % verdict}
+        has_loops = True   # fall through to the common path with the bounded counterexample
     if not has_loops:
         # complete procedure; fetch a trace for the refuted obligations
         inst_gb = os.path.join(driver.WORK, 'units', unit['name'], unit['name'] + '.i.gb')
@@ -107,7 +122,8 @@ def triage(unit, units, res, prop, tier='quick'):
                         'reason': 'extraction-fidelity: verifier counterexample does not reproduce on the real code (see %s)' % path}
         path = write_replay(prop, unit, res, body + '\nverifier output with counterexample trace:\n' + tr['out'][-30000:])
         return {'verdict': 'violation', 'replay': (nat or {}).get('file') or path, 'failing_input': bool(vals) or ('Trace for' in tr['out']), 'reason': 'refuted (loop-free)'}
-    verdict, blog = bounded_recheck(unit, units, outdir)
+    if blog is None:
+        verdict, blog = bounded_recheck(unit, units, outdir)
     if verdict == 'proved':
         path = write_replay(prop, unit, res, 'invariant-independent bounded re-check (capacity %d, loops unwound, unwinding assertions): PASSED\n'
                             '=> the proof no longer goes through, but the function contract holds up to the bound: UNDECIDED, not a violation.\n\n'
